@@ -90,6 +90,23 @@ func DrawArgs(t *rapid.T, label string) []val.KV {
 		}
 		out = append(out, val.KV{K: k, V: v})
 	}
+	if !seen["deep"] && rapid.IntRange(0, 7).Draw(t, label+"_deep") == 0 {
+		// a value nested d containers deep, every d from 1 to 70 (and a few beyond): nothing in the rules bounds
+		// the nesting of arguments; whatever the constructor accepts must not be refused at check time
+		d := rapid.IntRange(1, 70).Draw(t, label+"_depth")
+		if rapid.IntRange(0, 9).Draw(t, label+"_deeper") == 0 {
+			d = rapid.SampledFrom([]int{100, 127, 128, 129, 200, 256}).Draw(t, label+"_depthb")
+		}
+		v := val.Int(7)
+		for i := 0; i < d; i++ {
+			if (i+d)%2 == 0 {
+				v = val.List(v)
+			} else {
+				v = val.Map(val.E("n", v))
+			}
+		}
+		out = append(out, val.KV{K: "deep", V: v})
+	}
 	return out
 }
 
@@ -99,12 +116,35 @@ func DrawArgs(t *rapid.T, label string) []val.KV {
 // (G10). like subjects never contain '*' or '\'.
 func DrawStmt(t *rapid.T, args []val.KV, want bool, label string) (pol.Stmt, bool) {
 	data := val.V{K: "map", M: args}
+	// occasionally the statement sits under n nested nots (n around the powers of two up to 256): its truth is
+	// the inner truth flipped n times, however deep it stands
+	nots := 0
+	if rapid.IntRange(0, 39).Draw(t, label+"_deepnot") == 0 {
+		nots = rapid.SampledFrom([]int{1, 2, 3, 31, 32, 33, 63, 64, 65, 66, 67, 100, 101, 127, 128, 129, 130, 255, 256, 257}).Draw(t, label+"_nots")
+	}
+	inner := want
+	if nots%2 == 1 {
+		inner = !want
+	}
 	for attempt := 0; attempt < 12; attempt++ {
-		s := drawStmtOnce(t, args, want, fmt.Sprintf("%s_%d", label, attempt))
+		s := drawStmtOnce(t, args, inner, fmt.Sprintf("%s_%d", label, attempt))
 		ok, spec := StmtHolds(s, data)
-		if spec && ok == want {
-			return s, true
+		if !spec || ok != inner {
+			continue
 		}
+		if nots > 0 {
+			// only over data that resolves: under a not, "missing" is not the classical false
+			if r := pol.Eval(s, data); r != pol.True && r != pol.False {
+				continue
+			}
+			for i := 0; i < nots; i++ {
+				s = pol.Stmt{Op: "not", Sub: []pol.Stmt{s}}
+			}
+			if ok2, spec2 := StmtHolds(s, data); !spec2 || ok2 != want {
+				continue
+			}
+		}
+		return s, true
 	}
 	return pol.Stmt{}, false
 }
